@@ -17,7 +17,14 @@ import (
 	"encoding/binary"
 	"encoding/json"
 	"fmt"
+	"github.com/Nextdoor/pg-bifrost.git/app/config"
+	"github.com/Nextdoor/pg-bifrost.git/partitioner"
+	"github.com/Nextdoor/pg-bifrost.git/transport/transporters/kafka"
+	"github.com/Nextdoor/pg-bifrost.git/transport/transporters/kinesis"
+	"github.com/Shopify/sarama"
+	awskinesis "github.com/aws/aws-sdk-go/service/kinesis"
 	"math/rand"
+	"strconv"
 	"strings"
 	"sync"
 	"time"
@@ -51,6 +58,9 @@ type BCase struct {
 	Keys      int    `json:"keys"`
 	MemLimit  int64  `json:"mem_limit,omitempty"`
 	RecBytes  int    `json:"rec_bytes,omitempty"`
+	// Flavour: which batch type the batcher fills - "" / "generic" (S3, RabbitMQ, stdout), "kafka", "kinesis"
+	// (the real factories): the age rules read the BATCH's own create/modify times
+	Flavour string `json:"flavour,omitempty"`
 }
 
 type bResult struct {
@@ -77,7 +87,15 @@ func runBatcher(c BCase) bResult {
 	if c.MemLimit > 0 {
 		mem = c.MemLimit
 	}
-	b := rbatcher.NewBatcher(sh, in, seenCh, writtenCh, statsCh, c.TickMs, gbatch.NewGenericBatchFactory(1<<20), 2, c.IdleAgeMs, c.MaxAgeMs, 64, mem, rbatcher.BATCH_ROUTING_ROUND_ROBIN)
+	var fac transport.BatchFactory = gbatch.NewGenericBatchFactory(1 << 20)
+	switch c.Flavour {
+	case "kafka":
+		fac = kafka.NewBatchFactory(map[string]interface{}{kafka.ConfVarKafkaTopic: "t", kafka.ConfVarKafkaMaxMessageBytes: 1 << 30,
+			kafka.ConfVarKafkaBatchSize: 1 << 20, kafka.ConfVarKafkaPartitionMethod: "random"})
+	case "kinesis":
+		fac = kinesis.NewBatchFactory(map[string]interface{}{config.VAR_NAME_PARTITION_METHOD: partitioner.PART_METHOD_TABLENAME})
+	}
+	b := rbatcher.NewBatcher(sh, in, seenCh, writtenCh, statsCh, c.TickMs, fac, 2, c.IdleAgeMs, c.MaxAgeMs, 64, mem, rbatcher.BATCH_ROUTING_ROUND_ROBIN)
 	go b.StartBatching()
 	var mu sync.Mutex
 	fedAt := map[uint64]time.Time{}
@@ -90,8 +108,29 @@ func runBatcher(c BCase) bResult {
 			for bt := range ch {
 				now := time.Now()
 				mu.Lock()
-				for _, m := range bt.GetPayload().([]*marshaller.MarshalledMessage) {
-					gotAt[m.WalStart] = now
+				// every record carries its number in the first 20 bytes of its JSON
+				note := func(j []byte) {
+					if len(j) >= 20 {
+						if n, err := strconv.ParseUint(string(j[:20]), 10, 64); err == nil {
+							gotAt[n] = now
+						}
+					}
+				}
+				switch p := bt.GetPayload().(type) {
+				case []*marshaller.MarshalledMessage:
+					for _, m := range p {
+						note(m.Json)
+					}
+				case []*sarama.ProducerMessage:
+					for _, m := range p {
+						if v, ok := m.Value.(sarama.ByteEncoder); ok {
+							note([]byte(v))
+						}
+					}
+				case []*awskinesis.PutRecordsRequestEntry:
+					for _, r := range p {
+						note(r.Data)
+					}
 				}
 				mu.Unlock()
 			}
@@ -107,9 +146,17 @@ func runBatcher(c BCase) bResult {
 			}
 		}
 	}()
-	rec := make([]byte, c.RecBytes)
 	id := uint64(1)
 	feed := func(key string) {
+		n := c.RecBytes
+		if n < 20 {
+			n = 20
+		}
+		rec := make([]byte, n)
+		for i := range rec {
+			rec[i] = 'x'
+		}
+		copy(rec, fmt.Sprintf("%020d", id))
 		m := &marshaller.MarshalledMessage{Operation: "INSERT", Table: "public.t", Json: rec, TimeBasedKey: "7-1", WalStart: id, Transaction: "7", PartitionKey: key}
 		mu.Lock()
 		fedAt[id] = time.Now()
@@ -387,7 +434,8 @@ func init() {
 		kinds := []string{"trickle-one-key", "trickle-many-keys", "idle-key-beside-busy-key", "memory-pressure"}
 		cases := make([]BCase, n)
 		for i := range cases {
-			c := BCase{Kind: kinds[i%len(kinds)], TickMs: 20 + rng.Intn(11), GapMs: 2 + rng.Intn(4), DurMs: 600 + rng.Intn(300), Keys: 1}
+			c := BCase{Kind: kinds[i%len(kinds)], TickMs: 20 + rng.Intn(11), GapMs: 2 + rng.Intn(4), DurMs: 600 + rng.Intn(300), Keys: 1,
+				Flavour: []string{"generic", "kafka", "kinesis"}[(i/len(kinds))%3]}
 			c.IdleAgeMs = 2 * c.TickMs
 			c.MaxAgeMs = 4 * c.TickMs
 			if c.Kind == "trickle-many-keys" {
